@@ -8,6 +8,7 @@ condition.  In *concrete* mode (replay / fidelity) the same harness receives pla
 evaluated numerically against the untouched code.
 """
 import math
+import random
 import numbers
 import os
 import sys
@@ -1323,18 +1324,46 @@ class ConcCtx(BaseCtx):
     """Concrete run of the same harness on plain floats against the untouched code (no stubs installed)."""
     symbolic = False
 
-    def __init__(self, inputs, rtol=1e-9, atol=0.0):
+    def __init__(self, inputs, rtol=1e-9, atol=0.0, sample=None):
         super().__init__()
         self.inputs = inputs
         self.rtol, self.atol = rtol, atol
         self.failures = []
         self.stats = {}
         self.missing = []
+        # sample=k: inputs without a value are drawn from their declared box (fallback runs of the runner, used only for
+        # harness instances the symbolic engine could not execute faithfully); the values drawn are kept in self.inputs
+        self.sample = sample
+        self._rnd = random.Random(1000 + sample) if sample is not None else None
+
+    def _draw(self, lo, hi, lo_strict, hi_strict, integer, nice):
+        a, b = (nice if nice else (lo if lo is not None else 0, hi if hi is not None else 1000))
+        a, b = Fraction(a), Fraction(b)
+        k = self.sample
+        if integer:
+            a, b = math.ceil(a), math.floor(b)
+            v = (a + b) // 2 if k == 0 else a if k == 1 else b if k == 2 else self._rnd.randint(a, b)
+            return Fraction(v)
+        if k == 0:
+            v = (a + b) / 2
+        elif k == 1:
+            v = a + (b - a) / 64
+        elif k == 2:
+            v = b - (b - a) / 64
+        else:
+            v = a + (b - a) * Fraction(self._rnd.randint(1, 1023), 1024)
+        if lo is not None and (v < lo or (lo_strict and v == lo)):
+            v = Fraction(lo) + (b - a) / 1024
+        if hi is not None and (v > hi or (hi_strict and v == hi)):
+            v = Fraction(hi) - (b - a) / 1024
+        return v
 
     def var(self, name, lo=None, hi=None, lo_strict=False, hi_strict=False, integer=False, nice=None):
         if name not in self.inputs:
-            self.missing.append(name)
-            raise PathAbort(f"no value for {name}")
+            if self.sample is None:
+                self.missing.append(name)
+                raise PathAbort(f"no value for {name}")
+            self.inputs[name] = self._draw(lo, hi, lo_strict, hi_strict, integer, nice)
         v = self.inputs[name]
         return int(v) if integer else float(v)
 
@@ -1538,8 +1567,9 @@ def explore(harness, params, max_paths=256, max_seconds=600.0, solver_timeout_ms
                 pending=len(work))
 
 
-def run_concrete(harness, params, inputs, rtol=1e-9, atol=0.0):
-    ctx = ConcCtx(inputs, rtol, atol)
+def run_concrete(harness, params, inputs, rtol=1e-9, atol=0.0, sample=None):
+    inputs = dict(inputs)
+    ctx = ConcCtx(inputs, rtol, atol, sample=sample)
     set_ctx(ctx)
     try:
         try:
@@ -1553,7 +1583,7 @@ def run_concrete(harness, params, inputs, rtol=1e-9, atol=0.0):
     finally:
         set_ctx(None)
     return dict(outcome=outcome, failures=ctx.failures, observed=ctx.observed, n_obligations=len(ctx.obligations),
-                notes=ctx.notes)
+                notes=ctx.notes, inputs_used=dict(ctx.inputs))
 
 
 # ----------------------------------------------------------------------------------------------------------------
